@@ -23,6 +23,8 @@ EXPLANATION = (
     'type tuples with no other early exit; registration is keyed by the module object; hooks are registered only in '
     'BaseKFACPreconditioner.__init__, once each per registered module.  named_modules() semantics on shared instances are torch\'s.')
 
+NOT_DECIDED = 'named_modules() semantics on shared instances (torch)'
+
 
 def _ret_guards(p, f: Func, r: ast.AST) -> list[tuple[str, bool]]:  # noqa: ANN001
     return [(norm(a), pol) for g in flow.guards(p, f, r) for a, pol in conjuncts(g.test, g.polarity)]
